@@ -1,6 +1,6 @@
 use sylt_common::error::Error;
 
-use crate::statement::block;
+use crate::statement::{block, block_body};
 
 use super::*;
 
@@ -414,7 +414,7 @@ fn if_expression<'t>(ctx: Context<'t>) -> ParseResult<'t, Expression> {
     let (ctx, old_skip) = ctx.push_skip_newlines(true);
     let (ctx, condition) = expression(ctx)?;
     let ctx = ctx.pop_skip_newlines(old_skip);
-    let (ctx, body) = block(expect!(ctx, T::Do, "Expected 'do' after if condition"))?;
+    let (ctx, body) = block_body(expect!(ctx, T::Do, "Expected 'do' after if condition"))?;
     let condition = Some(condition);
 
     let mut branches = vec![{ IfBranch { span, condition, body } }];
@@ -427,7 +427,7 @@ fn if_expression<'t>(ctx: Context<'t>) -> ParseResult<'t, Expression> {
             let (ctx, old_skip) = ctx.push_skip_newlines(true);
             let (ctx, condition) = expression(ctx)?;
             let ctx = ctx.pop_skip_newlines(old_skip);
-            let (ctx, body) = block(expect!(ctx, T::Do, "Expected 'do' after elif condition"))?;
+            let (ctx, body) = block_body(expect!(ctx, T::Do, "Expected 'do' after elif condition"))?;
             let condition = Some(condition);
             (ctx, IfBranch { span, condition, body })
         };
